@@ -642,24 +642,31 @@ _dispatch_transform_from_base32_with_table(dispatch_data_t data,
 				*ptr++ = (x >> 16) & 0xff;
 				*ptr++ = (x >> 8) & 0xff;
 				*ptr++ = x & 0xff;
+				// padding shortens the quantum it terminates
+				switch (pad) {
+				case 0:
+					break;
+				case 1:
+					ptr -= 1;
+					break;
+				case 3:
+					ptr -= 2;
+					break;
+				case 4:
+					ptr -= 3;
+					break;
+				case 6:
+					ptr -= 4;
+					break;
+				default:
+					free(dest);
+					return (bool)false;
+				}
+				pad = 0;
 			}
 		}
 
 		size_t final = (size_t)(ptr - dest);
-		switch (pad) {
-		case 1:
-			final -= 1;
-			break;
-		case 3:
-			final -= 2;
-			break;
-		case 4:
-			final -= 3;
-			break;
-		case 6:
-			final -= 4;
-			break;
-		}
 
 		dispatch_data_t val = dispatch_data_create(dest, final, NULL,
 				DISPATCH_DATA_DESTRUCTOR_FREE);
@@ -888,14 +895,18 @@ _dispatch_transform_from_base64(dispatch_data_t data)
 				*ptr++ = (x >> 16) & 0xff;
 				*ptr++ = (x >> 8) & 0xff;
 				*ptr++ = x & 0xff;
+				// padding shortens the quantum it terminates
+				// 2 bytes of pad means only had one char in final group
+				if (pad > 2) {
+					free(dest);
+					return (bool)false;
+				}
+				ptr -= pad;
+				pad = 0;
 			}
 		}
 
 		size_t final = (size_t)(ptr - dest);
-		if (pad > 0) {
-			// 2 bytes of pad means only had one char in final group
-			final -= pad;
-		}
 
 		dispatch_data_t val = dispatch_data_create(dest, final, NULL,
 				DISPATCH_DATA_DESTRUCTOR_FREE);
